@@ -145,11 +145,12 @@ impl SchemaGen {
         match j {
             J::String(s) => match s.as_str() {
                 "null" | "boolean" | "int" | "long" | "float" | "double" | "bytes" | "string" => s.clone(),
-                other => format!("ref:{other}"),
+                // a reference and a definition of one type are the same branch type: key both by the simple name
+                other => format!("named:{}", other.rsplit('.').next().unwrap_or(other)),
             },
             J::Object(m) => match m.get("type") {
                 Some(J::String(t)) => match t.as_str() {
-                    "record" | "enum" | "fixed" => format!("named:{}", m.get("name").and_then(|n| n.as_str()).unwrap_or("")),
+                    "record" | "enum" | "fixed" => format!("named:{}", m.get("name").and_then(|n| n.as_str()).map(|n| n.rsplit('.').next().unwrap_or(n)).unwrap_or("")),
                     other => other.to_string(),
                 },
                 _ => "?".into(),
@@ -205,9 +206,12 @@ impl SchemaGen {
                 let mut kinds: Vec<String> = vec![];
                 let mut branches = vec![];
                 for _ in 0..n {
+                    // a branch that is dropped must not leave its definitions behind (later references would dangle)
+                    let defined_before = self.defined.clone();
                     let b = if rng.chance(1, 4) { J::String("null".into()) } else { self.schema(rng, depth + 1, ns, false, true) };
                     let k = Self::base_kind(&b);
-                    if kinds.contains(&k) || k.starts_with("ref:") && kinds.iter().any(|x| x.ends_with(&k[4..])) {
+                    if kinds.contains(&k) {
+                        self.defined = defined_before;
                         continue;
                     }
                     kinds.push(k);
